@@ -1,6 +1,6 @@
 //! C02 — token supply is conserved (u128 supply equation after every accepted block; no
 //! accepted transaction pays out more than it consumes).
-use saito_core::core::consensus::transaction::TransactionType;
+use saito_core::core::consensus::transaction::{Transaction, TransactionType};
 use serde_json::json;
 
 use crate::chain::TYPE_BOUND;
@@ -182,6 +182,12 @@ pub async fn run_history(reg: &Regime, rng: &mut Rng, rep: &mut Report, build: &
         if blk.total_payout_treasury > 0 {
             rep.count("blocks_paying_treasury");
         }
+        // ---- a hostile producer: the same block with its value-bearing parts tampered with and
+        // resealed by its creator, offered to a fresh replica sitting on the parent. Whatever the
+        // replica adopts must leave the supply where it was.
+        if step.id % 3 == 0 && h.b.store.has(&step.parent) {
+            hostile_producer_variants(&mut h, &blk, &step.parent, issued, reg.name, rng, rep).await;
+        }
         if !step.tip_moved {
             continue;
         }
@@ -218,6 +224,110 @@ pub async fn run_history(reg: &Regime, rng: &mut Rng, rep: &mut Report, build: &
         }
     }
     rep.sample(json!({"regime": reg.name, "gp": gp, "trace (id, G=golden ticket, R=reorg on replica)": trace.iter().take(40).collect::<Vec<_>>()}));
+}
+
+async fn hostile_producer_variants(h: &mut History, blk: &saito_core::core::consensus::block::Block, parent: &Hash, issued: u128, regime: &str, rng: &mut Rng, rep: &mut Report) {
+    use saito_core::core::consensus::block::Block;
+    let gp = h.cfg.params.gp;
+    let creator = h.b.actors[0].clone();
+    let thief = h.b.actors[2].clone();
+    for variant in 0..6u8 {
+        let mut b = match Block::deserialize_from_net(&block_bytes(blk)) {
+            Ok(b) => b,
+            Err(_) => return,
+        };
+        let name = match variant {
+            0 => {
+                // a hand-made fee transaction (with or without a golden ticket in the block)
+                let mut tx = Transaction::default();
+                tx.transaction_type = TransactionType::Fee;
+                tx.timestamp = b.timestamp;
+                let mut o = out_slip(&thief.pk, 777_000_000);
+                o.slip_type = saito_core::core::consensus::slip::SlipType::MinerOutput;
+                tx.add_to_slip(o);
+                if b.transactions.iter().any(|t| t.transaction_type == TransactionType::Fee) {
+                    continue;
+                }
+                b.transactions.push(tx);
+                "forged-fee-transaction"
+            }
+            1 => match b.transactions.iter_mut().find(|t| t.transaction_type == TransactionType::Fee && !t.to.is_empty()) {
+                Some(t) => {
+                    t.to[0].amount += 1_000_000;
+                    "fee-payout-inflated"
+                }
+                None => continue,
+            },
+            2 => {
+                let mut tx = Transaction::default();
+                tx.transaction_type = TransactionType::Issuance;
+                tx.timestamp = b.timestamp;
+                tx.add_to_slip(out_slip(&thief.pk, 5_000_000));
+                tx.sign(&creator.sk);
+                b.transactions.push(tx);
+                "extra-issuance-transaction"
+            }
+            3 => match b.transactions.iter_mut().find(|t| t.transaction_type == TransactionType::ATR && !t.to.is_empty()) {
+                Some(t) => {
+                    t.to[0].amount += 50_000;
+                    "rebroadcast-output-inflated"
+                }
+                None => continue,
+            },
+            4 => {
+                if b.treasury < 2 {
+                    continue;
+                }
+                b.treasury -= 1 + b.treasury / 2;
+                "treasury-lowered"
+            }
+            _ => match b.transactions.iter_mut().find(|t| t.transaction_type == TransactionType::Normal && t.to.iter().any(|s| s.amount > 0)) {
+                Some(t) => {
+                    let i = t.to.iter().position(|s| s.amount > 0).unwrap();
+                    t.to[i].amount += 10_000;
+                    "payment-output-inflated-unsigned"
+                }
+                None => continue,
+            },
+        };
+        crate::props::c04::reseal(&mut b, &creator, true);
+        let bytes = block_bytes(&b);
+        let key = h.b.actors[3].clone();
+        let mut sut = h.b.fresh_replica(parent, &key).await;
+        let before = sut.tip().await;
+        let r = crate::panics::catch_async(sut.add_bytes(&bytes)).await;
+        rep.eval();
+        rep.count("hostile_producer_blocks");
+        rep.count(&format!("hostile_producer.{}", name));
+        rep.nontrivial(&format!("hostile|{}|{}|{}", regime, name, blk.id));
+        let witness = json!({"kind":"hostile-producer","variant":name,"block_hex":hex::encode(&bytes),"parent_chain_hex": h.b.store.ancestors(parent).iter().map(|x| hex::encode(&h.b.store.get(x).bytes)).collect::<Vec<_>>()});
+        match r {
+            Err(p) => {
+                let clause = if p.message.contains("invalid total supply") { "node-supply-check-aborts" } else { "panic" };
+                rep.violation(&format!("C02|clause={}|hostile-producer={}|{}", clause, name, p.signature()), &format!("[{}] a block with {} (resealed by its creator) made add_block panic: {}", regime, name, p.message), witness);
+            }
+            Ok(_) => {
+                let after = sut.tip().await;
+                if after != before {
+                    rep.count("hostile_producer_blocks_adopted");
+                    rep.count(&format!("hostile_producer_adopted.{}", name));
+                    let chain = sut.chain.read().await;
+                    if let Some(sup) = supply(&chain, gp) {
+                        if sup != issued {
+                            rep.violation(
+                                &format!("C02|clause=supply-changed|hostile-producer={}", name),
+                                &format!("[{}] a block with {} was adopted and the supply is {} instead of {}", regime, name, sup, issued),
+                                witness,
+                            );
+                        }
+                    }
+                } else {
+                    rep.count("hostile_producer_blocks_refused");
+                }
+            }
+        }
+        let _ = rng.below(2);
+    }
 }
 
 pub async fn run(ctx: &Ctx, rep: &mut Report) {
